@@ -1,4 +1,5 @@
 // C07: range lemmas over the closed forms (the clauses on the real last()/update() are the [R]/range obligations in the view modules)
+use crate::props::c00_affine::*;
 use crate::props::c00_window::*;
 use crate::props::c04_averages::*;
 
